@@ -6,7 +6,8 @@ use vstd::prelude::*;
 use vstd::utf8::*;
 use vstd::string::*;
 use std::ffi::{OsStr, OsString};
-use std::os::unix::ffi::OsStrExt;
+use std::os::unix::ffi::{OsStrExt, OsStringExt};
+use std::path::{Path, PathBuf};
 use std::string::FromUtf8Error;
 use vstd::std_specs::iter::IteratorSpec;
 verus! {
